@@ -230,35 +230,46 @@ ENUM_WORDS = {
 }
 
 
+def enum_words(prog, path):
+    """variant name -> sorted list of the string literals its Display writes, by interpreting the Display impl on each variant"""
+    adt = prog.adts.get(path)
+    fn = None
+    for f in prog.fns.values():
+        im = f.get("impl")
+        if f.get("name") == "fmt" and im and im.get("trait_def") == "core::fmt::Display" and im["self_ty"].get("k") == "adt" and im["self_ty"]["path"] == path:
+            fn = f
+    if adt is None or fn is None:
+        return None
+    got = {}
+    for vv in adt["variants"]:
+        ip = entry.new_interp(prog, max_seconds=20, merge_returns=False, fmt_infallible=True)
+        st = State()
+        val = AdtVal(path, vv["idx"], [Top(f_["ty"]) for f_ in vv["fields"]], vname=vv["name"])
+        outs = ip.run_function(fn, [RefVal(st.new_heap(val), False), RefVal(st.new_heap(Opaque.make("formatter")), True)], st)
+        words = set()
+        for o in outs:
+            for e in o.events:
+                if e["kind"] == "write_fmt":
+                    for tr, ty, v in e["args"]:
+                        if isinstance(v, Opaque) and v.kind == "str":
+                            words.add(v.get("s"))
+                elif e["kind"] == "write_str" and isinstance(e.get("s"), str):
+                    words.add(e["s"])
+        got[vv["name"]] = sorted(words)
+    return got
+
+
 def enum_rule(rep, prog):
     rid = rep.rule("R4", "each enum's Display maps every variant to the documented word")
     n = 0
     for path, want in sorted(ENUM_WORDS.items()):
-        adt = prog.adts.get(path)
-        fn = None
-        for f in prog.fns.values():
-            im = f.get("impl")
-            if f.get("name") == "fmt" and im and im.get("trait_def") == "core::fmt::Display" and im["self_ty"].get("k") == "adt" and im["self_ty"]["path"] == path:
-                fn = f
-        if adt is None or fn is None:
+        got = enum_words(prog, path)
+        if got is None:
             rep.violation("R4", "anchor:%s" % path, "enum %s or its Display impl not found" % path)
             continue
-        got = {}
-        for vv in adt["variants"]:
-            ip = entry.new_interp(prog, max_seconds=20, merge_returns=False, fmt_infallible=True)
-            st = State()
-            val = AdtVal(path, vv["idx"], [Top(f_["ty"]) for f_ in vv["fields"]], vname=vv["name"])
-            outs = ip.run_function(fn, [RefVal(st.new_heap(val), False), RefVal(st.new_heap(Opaque.make("formatter")), True)], st)
-            words = set()
-            for o in outs:
-                for e in o.events:
-                    if e["kind"] == "write_fmt":
-                        for tr, ty, v in e["args"]:
-                            if isinstance(v, Opaque) and v.kind == "str":
-                                words.add(v.get("s"))
-            got[vv["name"]] = sorted(words)
+        for name, words in got.items():
             n += 1
-            rep.instance(rid, "%s::%s" % (path, vv["name"]), sample={"variant": "%s::%s" % (path.split("::")[-1], vv["name"]), "word": sorted(words)} if n in (1, 20) else None)
+            rep.instance(rid, "%s::%s" % (path, name), sample={"variant": "%s::%s" % (path.split("::")[-1], name), "word": words} if n in (1, 20) else None)
         bad = {k: (got.get(k), w) for k, w in want.items() if got.get(k) != [w]}
         extra = set(got) - set(want)
         if bad or extra:
